@@ -31,7 +31,7 @@ typedef struct
 	int nmul; word* mul_b; const word* mul_a; const void* mul_ec; size_t mul_m; int mul_ret; word mul_d[NW]; word mul_aval[2 * NW]; word mul_out[2 * NW];
 	int naddmul; word* am_b; const void* am_ec; size_t am_k; const word* am_pt[2]; word am_ptval[2][2 * NW]; word am_d[2][NW + 1]; size_t am_m[2]; int am_ret; word am_out[2 * NW];
 	int nison; const word* ison_a; word ison_val[2 * NW]; int ison_ret;
-	int nh; int h_kind[ENV_MAX]; const void* h_ptr[ENV_MAX]; size_t h_len[ENV_MAX]; octet h_val[ENV_MAX][SNAP]; int h_ret;
+	int nh; int h_kind[ENV_MAX]; const void* h_ptr[ENV_MAX]; size_t h_len[ENV_MAX]; octet h_val[ENV_MAX][SNAP]; int h_ret; octet h_out[32];
 	int nzmul; word zmul_a[NW]; size_t zmul_n; word zmul_b[NW]; size_t zmul_m; word zmul_out[2 * NW];
 	int nzmod; word zmod_a[2 * NW + 1]; size_t zmod_n; const word* zmod_mod; size_t zmod_m; word zmod_out[NW];
 	int nam; int am_kind[4]; word amod_a[4][NW]; word amod_b[4][NW]; const word* amod_mod[4]; word amod_out[4][NW];   /* zzAddMod (+1) / zzSubMod (-1) */
